@@ -415,6 +415,7 @@ J gen_tunnel(uint64_t seed, const J &ov)
 		f.set("p_rd_newid", r.chance(0.7) ? r.uniform() : 0.0);
 		f.set("p_rd_recase", b32 && r.chance(0.7) ? r.uniform() * 0.8 : (!b32 && r.chance(0.25)) ? r.uniform() * 0.3 : 0.0);    // re-cased copies also in sessions whose codec is case-sensitive (one relay of several re-cases its retries)
 		f.set("p_rd_altsrc", r.chance(0.4) ? r.uniform() * 0.3 : 0.0);
+		f.set("p_rd_again", r.chance(0.5) ? 0.2 + r.uniform() * 0.6 : 0.0);     // the relay repeats one of its copies unchanged
 		f.set("p_rd_altport", r.chance(0.5) ? r.uniform() * 0.5 : 0.0);
 		// copies that ask the same name with ANOTHER query type are new questions, not repeats: only in the jobs of C10/C14
 		// (every answer must echo the id/name/type of a distinct received query), never under the C16 oracles
